@@ -4,6 +4,7 @@ package main
 import (
 	"bufio"
 	"bytes"
+	"encoding/hex"
 	"fmt"
 	"io"
 	"math/rand"
@@ -311,6 +312,7 @@ func run(c *harness.Ctx, i int) {
 			{"double-slash", "//" + sid[:4] + "//" + sid + ext},
 			{"upper-hex", "/" + strings.ToUpper(sid[:4]) + "/" + strings.ToUpper(sid) + ext},
 			{"overlong", "/" + sid[:4] + "/" + sid + strings.Repeat("a", 5000) + ext},
+			{"overlong-by-a-byte", "/" + sid[:4] + "/" + sid + other[:2*(1+rng.Intn(3))] + ext},
 			{"empty", "/"},
 			{"absolute-uri", "http://" + addr + "/" + sid[:4] + "/" + sid + ext},
 			{"query", "/" + sid[:4] + "/" + sid + ext + "?x=../../outside/sentinel"},
@@ -610,9 +612,18 @@ func decodedBase(target string) string {
 }
 
 func idFromTarget(target, ext string) (desync.ChunkID, bool) {
+	// parsed here, not with desync's own function: exactly 64 hex digits
 	base := strings.TrimSuffix(decodedBase(target), ext)
-	id, err := desync.ChunkIDFromString(strings.ToLower(base))
-	return id, err == nil
+	var id desync.ChunkID
+	if len(base) != 2*len(id) {
+		return id, false
+	}
+	b, err := hex.DecodeString(base)
+	if err != nil {
+		return id, false
+	}
+	copy(id[:], b)
+	return id, true
 }
 
 func isObject(body []byte, server string, uncompressed bool, plain map[desync.ChunkID][]byte, idx []byte) bool {
